@@ -539,6 +539,10 @@ impl<S: Storage> Builder<S> {
             .register(id, span.clone(), output_row_counter.clone());
 
         let (tx, rx) = async_broadcast::broadcast(16);
+        // Deactivate the receiver before the task exists. While there is no active receiver
+        // `broadcast` waits; an active receiver that is deactivated after the task has already sent
+        // (possible as soon as the task runs on another worker thread) takes those chunks with it.
+        let rx = rx.deactivate();
         #[cfg(risinglight_verif)]
         let (verif_actor, verif_op) = {
             let short = name.lines().next().unwrap_or("").trim();
@@ -599,7 +603,7 @@ impl<S: Storage> Builder<S> {
         #[cfg(risinglight_verif)]
         crate::verif::event("spawn.spawned", &[]);
         StreamSubscriber {
-            rx: rx.deactivate(),
+            rx,
             handle: Arc::new(AbortOnDropHandle(handle)),
         }
     }
